@@ -26,7 +26,8 @@ def _ulp(x):
 def check_join_radiate(case):
     sv = repo.mod("geodepy.survey")
     e1, n1, e2, n2 = case["e1"], case["n1"], case["e2"], case["n2"]
-    r = sv.joins(e1, n1, e2, n2)
+    nk = case.get("num", "float")
+    r = sv.joins(S.as_kind(e1, nk), S.as_kind(n1, nk), S.as_kind(e2, nk), S.as_kind(n2, nk))
     if not (isinstance(r, tuple) and len(r) == 2):
         raise Fail("joins did not return (distance, bearing)", observed=repr(r))
     d, brg = r
@@ -226,7 +227,10 @@ def join_cases(draw):
         dd = draw(S.log_uniform(1e-3, 1e5))
         b = draw(S.floats(0.0, 2 * math.pi))
         e2, n2 = e1 + dd * math.sin(b), n1 + dd * math.cos(b)
-    return {"e1": e1, "n1": n1, "e2": e2, "n2": n2}
+    nk = draw(S.num_kind)
+    if nk == "int" and sel in (0, 1):
+        e1, n1, e2, n2 = (float(round(v)) for v in (e1, n1, e2, n2))
+    return {"e1": e1, "n1": n1, "e2": e2, "n2": n2, "num": nk}
 
 
 brg_s = st.one_of(S.floats(0.0, 360.0), S.floats(0.0, 360.0), st.sampled_from([0.0, 90.0, 180.0, 270.0, 360.0, 1e-13, 90.0 + 1e-13, 180.0 - 1e-13,
